@@ -94,10 +94,18 @@ structure Cfg where
   /-- `indexSetValueOnContainer` tests `AsInt` before `AsString`; before the fix the
       write-back of `$a[0][1] = v` treated `0` as the string key `"0"` -/
   intKeyFirst : Bool
+  /-- binding a variable / by-value parameter to the result of a call copies an array value,
+      as for every other argument expression (`paramSetValue` → `Parameter.SetValue` →
+      `SetVariableValue`). `false` = the elision "a call result is a temporary nobody else
+      holds, the copy is wasted": wrong, because `return $this->p` hands back the very
+      pointer the property holds (`C06_call_result_copy_needed`). -/
+  copyCallResult : Bool
 deriving DecidableEq, Repr
 
-def Cfg.fixed : Cfg := ⟨true, true, true⟩
-def Cfg.pinned : Cfg := ⟨false, false, false⟩
+def Cfg.fixed : Cfg := ⟨true, true, true, true⟩
+def Cfg.pinned : Cfg := ⟨false, false, false, true⟩
+/-- the fixed tree with the copy at the binding of a call result elided -/
+def Cfg.elided : Cfg := ⟨true, true, true, false⟩
 
 /-! ### list-level stores -/
 
@@ -416,19 +424,32 @@ inductive RV
   | null
   | lit (l : Lit)
   | rd (p : Place)
+  /-- the result of a call whose body is `return <place>;` — a getter `$o->getP()`
+      (`return $this->p`), a function returning a `static` local or a global, `at($c, k)`
+      (`return $x[k]` on a copy of `$c`, which shares the inner array objects):
+      `ReturnStatement` evaluates the expression with `GetValue` and hands back the very
+      pointer, no copy. The value reaches the next by-value boundary with no variable in
+      between. -/
+  | call (p : Place)
 deriving Repr
+
+def RV.isCall : RV → Bool
+  | .call _ => true
+  | _ => false
 
 def evalRV (cfg : Cfg) (s : St) : RV → Option (Val × St)
   | .int n => some (.sc (.int n), s)
   | .null => some (.sc .null, s)
   | .lit l => (l.alloc cfg s s.next).map (fun (v, n) => (v, { s with next := n }))
   | .rd p => (readPlace s p).map (·, s)
+  | .call p => (readPlace s p).map (·, s)
 
 /-! ### operations (one script statement each) -/
 
 inductive Op
-  /-- `$x = rhs` — also by-value parameter binding and `$x = f(..)` of a returned array:
-      all end in `Context.SetVariableValue` -/
+  /-- `$x = rhs` — also by-value parameter binding (`f(rhs)`, `new K(rhs)`, `$o->m(rhs)`: `$x`
+      is the callee's parameter) and `$x = f(..)` of a returned array: all end in
+      `Context.SetVariableValue` -/
   | setVar (x : Nat) (r : RV)
   /-- `$x->p = rhs` (`ClassValue.SetProperty`) -/
   | setProp (x p : Nat) (r : RV)
@@ -494,7 +515,7 @@ def stepOpt (cfg : Cfg) (s : St) : Op → Option St
   | .setVar x r =>
     match evalRV cfg s r with
     | some (v, s1) =>
-      let (v', n) := cloneOnStore v s1.next
+      let (v', n) := if cfg.copyCallResult || !r.isCall then cloneOnStore v s1.next else (v, s1.next)
       some { (s1.setVar x v') with next := n }
     | none => none
   | .setProp x p r =>
